@@ -1,7 +1,7 @@
 (* List-level facts about the editor skeleton (Editor.v), for every frame type and every per-frame
    function: frame accounting, frames outside a range are untouched, invalid ranges are errors. *)
 From Coq Require Import List NArith ZArith Lia Bool String Permutation.
-From DV Require Import Outcome Bits BitIO Fields Blocks Rpu Ops Editor.
+From DV Require Import Outcome SortUnique Bits BitIO Fields Blocks Rpu Ops Editor.
 Import ListNotations.
 Open Scope N_scope.
 Local Open Scope out_scope.
@@ -371,12 +371,12 @@ Qed.
 
 (* no frame disappears silently: the output has one NAL per frame that `remove` left, plus the
    configured duplicates *)
-Theorem edit_length p c rpus out :
-  edit p c rpus = Ok out ->
+Lemma edit_sorted_length p c rpus out :
+  edit_sorted p c rpus = Ok out ->
   exists l1, removed_list c rpus = Ok l1 /\ List.length l1 = List.length rpus /\
     List.length out = (count_some l1 + match e_dups c with Some ds => dup_total ds | None => O end)%nat.
 Proof.
-  unfold edit. intros H.
+  unfold edit_sorted. intros H.
   destruct (execute c (map Some rpus)) as [l| |s] eqn:He; cbn [bind] in H; try discriminate.
   destruct (encode_remaining (write_hevc_unspec62_nalu p src_sw) l) as [data| |s] eqn:Hd; cbn [bind] in H; try discriminate.
   apply execute_shape in He. destruct He as (l1 & Hr & Hs).
@@ -389,6 +389,12 @@ Proof.
     + apply dup_apply_length in H. rewrite H, Hd, dup_total_order. reflexivity.
     + inversion H; subst. lia.
 Qed.
+
+Theorem edit_length p c rpus out :
+  edit p c rpus = Ok out ->
+  exists l1, removed_list c rpus = Ok l1 /\ List.length l1 = List.length rpus /\
+    List.length out = (count_some l1 + match e_dups c with Some ds => dup_total ds | None => O end)%nat.
+Proof. unfold edit. intros H. apply edit_sorted_length in H. exact H. Qed.
 
 (* the removed frames are exactly the configured ones *)
 Lemma removed_nth_single_range {A} a b (l : list (option A)) (j : nat) x :
@@ -465,4 +471,84 @@ Proof.
   destruct (e_edits c) as [ed|]; [|inversion H4; reflexivity].
   destruct ed as [|e0 ed]; [inversion H4; reflexivity|].
   destruct (e_presets c); [eapply range_pass_outside; eauto|inversion H4; reflexivity].
+Qed.
+
+(* ---------------- C17: the result depends only on the content of the maps ---------------- *)
+Lemma ascii_compare_spec a b :
+  CompareSpec (a = b) (Ascii.N_of_ascii a < Ascii.N_of_ascii b) (Ascii.N_of_ascii b < Ascii.N_of_ascii a) (Ascii.compare a b).
+Proof.
+  unfold Ascii.compare. destruct (N.compare_spec (Ascii.N_of_ascii a) (Ascii.N_of_ascii b)) as [H|H|H]; constructor; auto.
+  rewrite <- (Ascii.ascii_N_embedding a), <- (Ascii.ascii_N_embedding b), H. reflexivity.
+Qed.
+
+Lemma string_compare_trans_le : forall a b c,
+  String.compare a b <> Gt -> String.compare b c <> Gt -> String.compare a c <> Gt.
+Proof.
+  induction a as [|x a IH]; intros [|y b] [|z c]; cbn; try congruence.
+  destruct (ascii_compare_spec x y) as [Hxy|Hxy|Hxy]; try congruence;
+  destruct (ascii_compare_spec y z) as [Hyz|Hyz|Hyz]; try congruence;
+  destruct (ascii_compare_spec x z) as [Hxz|Hxz|Hxz]; subst; try congruence; try lia; intros; try apply (IH b c); auto.
+Qed.
+
+Lemma string_leb_trans a b c : String.leb a b = true -> String.leb b c = true -> String.leb a c = true.
+Proof.
+  unfold String.leb. intros H1 H2.
+  pose proof (string_compare_trans_le a b c) as H.
+  destruct (String.compare a b); try discriminate; destruct (String.compare b c); try discriminate;
+  destruct (String.compare a c); auto; exfalso; apply H; congruence.
+Qed.
+
+Lemma string_leb_total' a b : String.leb a b = false -> String.leb b a = true.
+Proof. intros H. destruct (String.leb_total a b) as [H1|H1]; congruence. Qed.
+
+Lemma nodup_keys_eq {V} (l : list (string * V)) x y :
+  NoDup (map fst l) -> In x l -> In y l -> fst x = fst y -> x = y.
+Proof.
+  induction l as [|e t IH]; intros Hnd Hx Hy Hk; [destruct Hx|].
+  cbn in Hnd. inversion Hnd as [|? ? Hnot Hnd']; subst.
+  destruct Hx as [->|Hx], Hy as [->|Hy]; auto.
+  - exfalso. apply Hnot. rewrite Hk. apply in_map. exact Hy.
+  - exfalso. apply Hnot. rewrite <- Hk. apply in_map. exact Hx.
+Qed.
+
+Lemma sort_entries_canonical {V} (l1 l2 : list (string * V)) :
+  NoDup (map fst l1) -> Permutation l1 l2 -> sort_entries l1 = sort_entries l2.
+Proof.
+  intros Hnd P. unfold sort_entries. apply isort_canonical; auto.
+  - intros a b. unfold entry_le. apply string_leb_total'.
+  - intros a b c. unfold entry_le. apply string_leb_trans.
+  - intros x y Hx Hy H1 H2. unfold entry_le in *.
+    eapply nodup_keys_eq; eauto. apply String.leb_antisym; auto.
+Qed.
+
+Definition same_but_maps (c1 c2 : econfig) : Prop :=
+  e_mode c1 = e_mode c2 /\ e_remove_cmv4 c1 = e_remove_cmv4 c2 /\ e_remove_mapping c1 = e_remove_mapping c2 /\
+  e_min_pq c1 = e_min_pq c2 /\ e_max_pq c1 = e_max_pq c2 /\ e_has_aa c1 = e_has_aa c2 /\ e_crop c1 = e_crop c2 /\
+  e_drop_l5 c1 = e_drop_l5 c2 /\ e_presets c1 = e_presets c2 /\ e_remove c1 = e_remove c2 /\ e_dups c1 = e_dups c2 /\
+  e_l6 c1 = e_l6 c2 /\ e_l9 c1 = e_l9 c2 /\ e_l11 c1 = e_l11 c2 /\ e_l255 c1 = e_l255 c2 /\
+  e_source c1 = e_source c2 /\ e_levels c1 = e_levels c2.
+
+Definition same_map {V} (m1 m2 : option (list (string * V))) : Prop :=
+  match m1, m2 with
+  | Some l1, Some l2 => NoDup (map fst l1) /\ Permutation l1 l2
+  | None, None => True
+  | _, _ => False
+  end.
+
+(* two listings of the same configuration (same scalar fields, the two maps listed in any order,
+   keys distinct as in any map) give the same result, error or not *)
+Theorem edit_order_independent p c1 c2 rpus :
+  same_but_maps c1 c2 -> same_map (e_cuts c1) (e_cuts c2) -> same_map (e_edits c1) (e_edits c2) ->
+  edit p c1 rpus = edit p c2 rpus.
+Proof.
+  intros (H1 & H2 & H3 & H4 & H5 & H6 & H7 & H8 & H9 & H10 & H11 & H12 & H13 & H14 & H15 & H16 & H17) Hc He.
+  unfold edit. f_equal. unfold canon.
+  rewrite H1, H2, H3, H4, H5, H6, H7, H8, H9, H10, H11, H12, H13, H14, H15, H16, H17.
+  assert (Ec : option_map sort_entries (e_cuts c1) = option_map sort_entries (e_cuts c2)).
+  { unfold same_map in Hc. destruct (e_cuts c1), (e_cuts c2); try tauto. cbn. f_equal.
+    destruct Hc. apply sort_entries_canonical; auto. }
+  assert (Ee : option_map sort_entries (e_edits c1) = option_map sort_entries (e_edits c2)).
+  { unfold same_map in He. destruct (e_edits c1), (e_edits c2); try tauto. cbn. f_equal.
+    destruct He. apply sort_entries_canonical; auto. }
+  rewrite Ec, Ee. reflexivity.
 Qed.
